@@ -2,6 +2,7 @@
 # run every registered quick (or $1) check, validate the evidence files
 cd "$(dirname "$0")/.."
 tier=${1:-quick}
+mkdir -p work
 rc=0
 for p in $(python3 -c "import json;print(' '.join(c['property_id'] for c in json.load(open('MANIFEST.json'))['checks']))"); do
   ./check $p --tier $tier > work/runall-$p.log 2>&1; r=$?
